@@ -127,3 +127,11 @@ Proof.
   induction n as [|c n IH]; intros r; cbn [map rx_match]; [reflexivity|].
   rewrite deriv_swap. apply IH.
 Qed.
+
+Open Scope Z_scope.
+Lemma glob_realpath_never_win P f : plat_windows P = false -> Z.testbit f 10 = true ->
+  Z.testbit (glob_flag_transform P f) 5 = true /\ Z.testbit (glob_flag_transform P f) 16 = false.
+Proof.
+  intros HP H10. destruct (glob_transform_force P f HP) as [A [B C]]. split; [exact A|].
+  rewrite B, H10. cbn [negb]. apply andb_false_r.
+Qed.
